@@ -185,11 +185,11 @@ fn products<T: Sc>(t: &mut Toks, cx: &mut Ctx) -> String {
     if dupfree {
         match &ax { Ok(v) => { cx.check(x.size() == cols, "multiply accepted a vector of the wrong length");
                         if x.size() == cols { let e: Vec<T> = (0..rows).map(|i| { let mut acc = T::zero(); for j in 0..cols { if seen.contains(&(i, j)) { acc += d[i][j] * x[j]; } } acc }).collect();
-                            cx.check(if T::is_exact() { same_vec(&v.vec, &e) } else { v.size() == rows && (0..rows).all(|i| (v[i] - e[i]).mag64() <= 1e-12 * (0..cols).map(|j| (d[i][j] * x[j]).mag64()).sum::<f64>() + 1e-300) }, "A x differs from the dense product"); } }
+                            cx.check(if T::is_exact() { same_vec(&v.vec, &e) } else { v.size() == rows && (0..rows).all(|i| (v[i] - e[i]).mag64() <= 2.02 * (cols as f64 + 1.0) * (f64::EPSILON / 2.0) * if T::TAG == "c" { 8.0 } else { 1.0 } * (0..cols).map(|j| (d[i][j] * x[j]).mag64()).sum::<f64>() + 1e-300) }, "A x differs from the dense product (exactly over Q; over floats by more than the bound (cols+1)u sum|a_ij x_j| of theorem C07F.multiply_rounding, doubled for the rounding of the reference sum)"); } }
                     Err(c) => cx.check(x.size() != cols, &format!("multiply panicked ({})", c)) }
         match &aty { Ok(v) => { cx.check(y.size() == rows, "transpose_multiply accepted a vector of the wrong length");
                         if y.size() == rows { let e: Vec<T> = (0..cols).map(|j| { let mut acc = T::zero(); for i in 0..rows { if seen.contains(&(i, j)) { acc += d[i][j] * y[i]; } } acc }).collect();
-                            cx.check(if T::is_exact() { same_vec(&v.vec, &e) } else { v.size() == cols && (0..cols).all(|j| (v[j] - e[j]).mag64() <= 1e-12 * (0..rows).map(|i| (d[i][j] * y[i]).mag64()).sum::<f64>() + 1e-300) }, "A^T y differs from the dense product"); } }
+                            cx.check(if T::is_exact() { same_vec(&v.vec, &e) } else { v.size() == cols && (0..cols).all(|j| (v[j] - e[j]).mag64() <= 2.02 * (rows as f64 + 1.0) * (f64::EPSILON / 2.0) * if T::TAG == "c" { 8.0 } else { 1.0 } * (0..rows).map(|i| (d[i][j] * y[i]).mag64()).sum::<f64>() + 1e-300) }, "A^T y differs from the dense product"); } }
                      Err(c) => cx.check(y.size() != rows, &format!("transpose_multiply panicked ({})", c)) }
         if T::is_exact() {
             match (&aty, &aty2) { (Ok(p), Ok(q)) => cx.check(same_vec(&p.vec, &q.vec), "transpose().multiply(y) != transpose_multiply(y)"), (Err(_), Err(_)) => {}, _ => cx.fail("transpose().multiply(y) and transpose_multiply(y) disagree on acceptance") }
